@@ -229,7 +229,9 @@ func ZZ_C12_path_step() {
 	shape := 4 + zz.Choose(2)
 	w := zzWorldShape(shape, false)
 	t := zz.Choose(len(w.real))
-	paths := [][]string{nil, {"m"}, {"m", "m2"}, {"m2"}, {"a"}, {"m", "a"}, {"n"}, {"m", "n"}, {"a", "m"}}
+	paths := [][]string{nil, {"m"}, {"m", "m2"}, {"m2"}, {"a"}, {"m", "a"}, {"n"}, {"m", "n"}, {"a", "m"},
+		// later elements are looked up in the module reached so far only, not in what encloses it
+		{"m", "m"}, {"m", "m2", "m"}, {"m", "m2", "m2"}, {"m2", "m"}, {"m", "m2", "n"}}
 	path := paths[zz.Choose(len(paths))]
 	var got *Env
 	var err error
@@ -270,6 +272,7 @@ func ZZ_C12_path_step() {
 		zz.Assert(got == w.real[want], "C12.value/GetEnvFromPath")
 	}
 	zz.Assert(zzSameState(w), "C12.post-state/path")
+	zz.Assert(zz.LocksHeld() == 0, "C12.no-lock-left-held/GetEnvFromPath")
 }
 
 // ZZ_C12_external_step: a scope's external lookup is consulted after its own
@@ -421,6 +424,62 @@ func ZZ_C12_copy_step() {
 	} else {
 		zz.Assert(zzSameState(cw), "C12.copy-independent/copy")
 	}
+}
+
+// ZZ_C12_copy_ext_step: a copy (deep or not) keeps consulting the external
+// lookups its source scopes consult: lookups through the copy see what
+// lookups through the source see.
+func ZZ_C12_copy_ext_step() {
+	zzNames = []string{"a"}
+	zzFillMode = 1
+	w := zzWorldShape(1+zz.Choose(2), false)
+	zzFillMode = 0
+	t := len(w.real) - 1
+	deep := zz.Choose(2) == 1
+	// one scope of the chain has an external lookup answering for "n" and
+	// possibly "a" (values) and "nt" (a type)
+	x := zz.Choose(len(w.real))
+	xv := zz.Int64()
+	ext := &zzExt{vals: map[string]int64{"n": xv}, types: map[string]int{"nt": 1}}
+	m := w.model[x]
+	m.hasExt, m.ext, m.extT = true, map[string]int64{"n": xv}, map[string]int{"nt": 1}
+	if zz.Choose(2) == 1 {
+		av := zz.Int64()
+		ext.vals["a"], m.ext["a"] = av, av
+	}
+	w.real[x].SetExternalLookup(ext)
+	var c *Env
+	p := zzGuard(func() {
+		if deep {
+			c = w.real[t].DeepCopy()
+		} else {
+			c = w.real[t].Copy()
+		}
+	})
+	zz.Assert(!p && c != nil, "C12.no-panic/Copy+ext")
+	if c == nil {
+		return
+	}
+	for _, name := range []string{"n", "a"} {
+		var got interface{}
+		var err error
+		p := zzGuard(func() { got, err = c.Get(name) })
+		b, ok := w.mGet(t, name)
+		zz.Assert(!p && (err == nil) == ok, "C12.copy-keeps-external-lookup/Get")
+		if ok && err == nil {
+			i, isInt := got.(int64)
+			zz.Assert(isInt && i == b.v, "C12.copy-keeps-external-lookup/Get-value")
+		}
+	}
+	var rt reflect.Type
+	var err error
+	p = zzGuard(func() { rt, err = c.Type("nt") })
+	_, _, okT := w.mType(t, "nt")
+	zz.Assert(!p && (err == nil) == okT, "C12.copy-keeps-external-lookup/Type")
+	if okT && err == nil {
+		zz.Assert(rt == zzTypeCodes[1], "C12.copy-keeps-external-lookup/Type-value")
+	}
+	zz.Assert(zzSameState(w), "C12.post-state/copy+ext")
 }
 
 // ZZ_C12_history3: three operations in a row (cross-check of the lemma
